@@ -181,6 +181,7 @@ def embeddable(v):
 class _Recorder(object):
   def __init__(self):
     self.seen = []
+    self.scopes = []
 
 
 def check_embed(v, mod, fails):
@@ -194,6 +195,7 @@ def check_embed(v, mod, fails):
     def __init__(self, function_name, scope_name, options):
       rec.seen.append((function_name, options))
       real_fs.__init__(self, function_name, scope_name, options)
+      rec.scopes.append((function_name, self))
 
   def spy_with_function_scope(thunk, scope_name, options):
     rec.seen.append(('<lambda>', options))
@@ -221,6 +223,12 @@ def check_embed(v, mod, fails):
     if not isinstance(op, converter.ConversionOptions) or (
         op.recursive, op.user_requested, op.internal_convert_user_code, frozenset(op.optional_features)) != want_top:
       fails.append(('embed:top', {'got': repr(getattr(op, 'as_tuple', lambda: op)()), 'want': repr(want_top)}))
+  # the options each running scope hands to its callees (what converted_call receives)
+  for name, sc in rec.scopes:
+    co = getattr(sc, 'callopts', None)
+    if not isinstance(co, converter.ConversionOptions) or (
+        co.recursive, co.user_requested, co.internal_convert_user_code, frozenset(co.optional_features)) != want_inner:
+      fails.append(('embed:callopts', {'scope': name, 'got': repr(getattr(co, 'as_tuple', lambda: co)()), 'want': repr(want_inner)}))
   for op in inners:
     if not isinstance(op, converter.ConversionOptions) or (
         op.recursive, op.user_requested, op.internal_convert_user_code, frozenset(op.optional_features)) != want_inner:
